@@ -14,7 +14,8 @@ from common import pj
 
 EVQ = "asl_workflow_events"
 RPQ = "asl_workflow_reply_to"
-SWITCH = {"F1": "requestFromTimer", "F2": "replyAckedBeforeJoin", "F4": "nestedJoinAcksEarly"}
+SWITCH = {"F1": "requestFromTimer", "F2": "replyAckedBeforeJoin", "F4": "nestedJoinAcksEarly", "F7": "batchRelaunched",
+          "F8": "childAnswerInProcess", "F9": "attemptFailureForgotten"}
 DELEGATES = ("asl_state_Task_delegate", "asl_state_Parallel_delegate", "asl_state_Map_delegate", "on_timeout")
 
 
@@ -61,7 +62,7 @@ def error_replies(log):
             except Exception:
                 continue
             if isinstance(b, dict) and b.get("errorType"):
-                out.add((fr.get("props") or {}).get("correlation_id"))
+                out.add(base_id((fr.get("props") or {}).get("correlation_id")))
     return out
 
 
@@ -70,88 +71,309 @@ def requested(log):
     out = set()
     for fr in log:
         if fr["op"] == "publish" and fr.get("conn") != "worker":
-            cid = (fr.get("props") or {}).get("correlation_id")
+            cid = base_id((fr.get("props") or {}).get("correlation_id"))
             if cid is not None:
                 out.add(cid)
     return out
 
 
-def skeleton(machine, log, failed):
-    """the skeleton of the (crash-free) run whose broker log is `log`; `failed`: it ended FAILED"""
-    evs = published_events(log)
-    errs = error_replies(log)
-    reqd = requested(log)
-    visits = []       # (ordinal, message id, name, stack as a tuple of (ID, Index), retry count)
-    for i, mid, st in evs:
-        br = st.get("Branch") or []
-        if br and "Index" not in br[-1]:
-            continue                                   # a Map state re-entered for its next batch: not a visit
-        visits.append((i, mid, st.get("Name"), tuple((f.get("ID"), f.get("Index")) for f in br), br))
-    if not visits or visits[0][2] not in ("", None):
-        raise Unsupported("no start event")
-    start_at = machine.get("StartAt")
+def body_of(fr):
+    try:
+        return json.loads(fr["body"].decode("utf8") if isinstance(fr["body"], (bytes, bytearray)) else fr["body"])
+    except Exception:
+        return None
 
-    def build(prefix):
-        mine = [v for v in visits if v[3] == prefix]
-        items = []
-        seen_fan = {}
-        for n, (i, mid, name, _stack, _br) in enumerate(mine):
-            name = name or start_at
-            st = find_state(machine, name)
-            if st is None:
-                raise Unsupported("state %r not found" % name)
+
+def error_names(log):
+    """correlation id -> errorType of the requests a worker answered with an error document"""
+    out = {}
+    for fr in log:
+        if fr["op"] == "publish" and fr.get("conn") == "worker" and str(fr.get("routing_key", "")).startswith(RPQ):
+            b = body_of(fr)
+            if isinstance(b, dict) and b.get("errorType"):
+                out[base_id((fr.get("props") or {}).get("correlation_id"))] = b["errorType"]
+    return out
+
+
+UNRECOVERABLE = ("States.Runtime", "States.ExecutionTimeout", "States.ExecutionHistoryLimitExceeded", "Task.Terminated")
+FUNCTION = "arn:aws:rpcmessage:local::function:"
+
+
+def base_id(cid):
+    """the id of the Task event behind a correlation id: the "long form" of a function call (Resource …:rpcmessage:invoke)
+    sends its request under the event id with the suffix `.invoke`"""
+    if isinstance(cid, str) and cid.endswith(".invoke"):
+        return cid[:-len(".invoke")]
+    return cid
+
+
+def is_function_call(st):
+    res = str((st or {}).get("Resource", ""))
+    return res.startswith(FUNCTION) or res.endswith(":rpcmessage:invoke")
+SYNC_CHILD = "arn:aws:states:::states:startExecution.sync"
+
+
+def matches(error, rule):
+    ee = rule.get("ErrorEquals") if isinstance(rule, dict) else None
+    if not isinstance(ee, list):
+        ee = []
+    return error in ee or "States.TaskFailed" in ee or (len(ee) == 1 and ee[0] == "States.ALL")
+
+
+def handler_of(state, error, retry_count):
+    """how `state` deals with `error`, as `handle_error` decides: ("retry", None) — a matching Retrier with attempts left, given
+    the RetryCount the state's event carries —, ("catch", Next) or None"""
+    if error in UNRECOVERABLE or not isinstance(state, dict):
+        return None
+    for r in (state.get("Retry") if isinstance(state.get("Retry"), list) else []):
+        if isinstance(r, dict) and matches(error, r):
+            if (retry_count or 0) < r.get("MaxAttempts", 3):
+                return ("retry", None)
+            break
+    for c in (state.get("Catch") if isinstance(state.get("Catch"), list) else []):
+        if isinstance(c, dict) and matches(error, c):
+            return ("catch", c.get("Next"))
+    return None
+
+
+def handles(state, error, retry_count):
+    return handler_of(state, error, retry_count) is not None
+
+
+class PseudoVisit(object):
+    """a visit the reference run never made, inside the Branch frames `branch`"""
+    def __init__(self, branch):
+        self.branch, self.mid = branch, None
+
+
+class Visit(object):
+    def __init__(self, ordinal, mid, n, ctx):
+        st = ctx.get("State") or {}
+        self.ord, self.mid, self.n = ordinal, mid, n
+        self.name = st.get("Name")
+        self.branch = st.get("Branch") or []
+        self.rc = st.get("RetryCount") or 0
+        self.execution = (ctx.get("Execution") or {}).get("Id")
+        self.machine = (ctx.get("StateMachine") or {}).get("Id")
+        self.reenter = bool(self.branch) and "Index" not in self.branch[-1]
+        self.stack = tuple((f.get("ID"), f.get("Index")) for f in self.branch)
+        self.cause = None           # (kind, message id) of the handler invocation that published it
+
+
+def skeleton(machines, lab, plans=None):
+    """The skeleton of the (crash-free) run that went through the Labeller `lab`.  `machines`: state machine ARN -> definition;
+    `plans`: what the workers answer, per function a list of outcomes indexed by the attempt that asks (for the visits the
+    reference run never got to: where the definition and the plans leave no doubt they are filled in, otherwise "?").
+    Every event the engine published is one state visit (the Branch stacks in the event contexts give the tree); what a visit
+    led to is read from the handler invocation that published what followed.  A visit that fails (a Task whose worker answered
+    with an error its state does not handle, a Fail state, a handler that ended the execution FAILED) is followed by
+    {"fail": level | null, "cont": …}: the level is decided from the definition as `handle_error` does, the continuation is the
+    reference run's when that failure is the one it took, otherwise "?"."""
+    log = lab.s.broker.log
+    errs = error_names(log)
+    reqd = requested(log)
+    visits = []
+    notes = []                      # (frame index, execution, status)
+    for n, fr in enumerate(log):
+        if fr["op"] != "publish" or fr.get("conn") == "worker":
+            continue
+        if str(fr.get("routing_key", "")).startswith(EVQ):
+            b = body_of(fr) or {}
+            visits.append(Visit(len(visits), (fr.get("props") or {}).get("message_id"), n, b.get("context") or {}))
+        elif fr.get("exchange") == "asl_workflow_engine":
+            d = (body_of(fr) or {}).get("detail") or {}
+            notes.append((n, d.get("executionArn"), d.get("status")))
+    steps = [st for st in lab.steps if st[0] in ("ev", "tm", "rp")]
+
+    def cause_of(n):
+        for kind, ident, n0, n1 in steps:
+            if n0 <= n < n1:
+                return (kind, ident)
+        return None
+    for v in visits:
+        v.cause = cause_of(v.n)
+    failed_by = {}                  # message id -> executions its handlers ended FAILED
+    for n, ex, status in notes:
+        c = cause_of(n)
+        if c is not None and status == "FAILED":
+            failed_by.setdefault(c[1], set()).add(ex)
+    ended = {ex: status for n, ex, status in notes if status != "RUNNING"}
+    if not visits or visits[0].name not in ("", None):
+        raise Unsupported("no start event")
+
+    class Build(object):
+        def __init__(self, execution, machine):
+            self.machine = machine
+            self.execution = execution
+            self.threads = {}
+            for v in visits:
+                if v.execution == execution and not v.reenter:
+                    self.threads.setdefault(v.stack, []).append(v)
+            self.taken = set()      # message ids of the failing visits whose continuation is the reference run's
+
+        def static_seq(self, name, frames, ctx, own_rc=0, fuel=12):
+            """what the definition and the workers' plans say about the visits from state `name` on, inside the Branch
+            frames `frames` (innermost last), as far as it is certain: Pass / Succeed / Wait states without data handling
+            that could fail, Tasks calling a planned function"""
+            st = find_state(self.machine, name) if isinstance(name, str) and name else None
+            if fuel == 0 or not isinstance(st, dict):
+                return ["?"]
             ty = st.get("Type")
-            last = n == len(mine) - 1
+
+            def then(rc=0):
+                if st.get("End") or ty == "Succeed":
+                    return []
+                return self.static_seq(st.get("Next"), frames, ctx, 0, fuel - 1)
+            if ty in ("Pass", "Succeed") and not any(k in st for k in ("InputPath", "OutputPath", "Parameters", "ResultPath")):
+                return ["S"] + then()
+            if ty == "Wait" and not any(k in st for k in ("InputPath", "OutputPath")):
+                return ["W"] + then()
+            if ty == "Task" and str(st.get("Resource", "")).startswith(FUNCTION) and "Parameters" not in st:
+                item = {"T": own_rc} if own_rc else "T"
+                fn = str(st.get("Resource"))[len(FUNCTION):]
+                if plans is None:
+                    return [item] + ([] if st.get("End") else ["?"])
+                n = lambda x: x if isinstance(x, int) and not isinstance(x, bool) else 0
+                k = own_rc + sum(n(f.get("RetryCount")) for f in frames)
+                outcomes = plans.get(fn) or [("ok",)]
+                o = outcomes[min(k, len(outcomes) - 1)]
+                if o[0] == "ok":
+                    return [item] + then()
+                if o[0] != "err":
+                    return [item, "?"]
+                h = handler_of(st, o[1], own_rc)
+                if h is not None and h[0] == "retry":
+                    return [item] + self.static_seq(name, frames, ctx, own_rc + 1, fuel - 1)
+                if h is not None:
+                    return [item] + self.static_seq(h[1], frames, ctx, 0, fuel - 1)
+                return [item] + self.fail_item(PseudoVisit(frames), o[1], ctx)
+            return ["?"]
+
+        def state(self, v):
+            st = find_state(self.machine, v.name or self.machine.get("StartAt"))
+            if not isinstance(st, dict):
+                raise Unsupported("state %r not found" % v.name)
+            return st
+
+        def fail_level(self, v, error):
+            for k in range(len(v.branch)):
+                fr = v.branch[-1 - k]
+                h = handler_of(find_state(self.machine, fr.get("Parent")), error, fr.get("RetryCount"))
+                if h is not None:
+                    return k, h
+            return None, None
+
+        def fail_item(self, v, error, ctx):
+            lvl, how = self.fail_level(v, error)
+            if lvl is None or lvl >= len(ctx):
+                return [{"fail": None, "cont": []}]
+            following, cause = ctx[lvl]
+            if cause == v.mid and following is not None:
+                self.taken.add(v.mid)
+                return [{"fail": lvl, "cont": following}]
+            # not the failure the reference run took: a Catch leads where the definition says; a retry to a new attempt of the
+            # fan-out state, which is taken to go as the next attempt went in the reference run (the workers answer by attempt)
+            if how[0] == "catch":
+                return [{"fail": lvl, "cont": self.static_seq(how[1], v.branch[:len(v.branch) - lvl - 1], ctx[lvl + 1:])}]
+            if following and isinstance(following[0], dict) and "par" in following[0]:
+                return [{"fail": lvl, "cont": following}]
+            return [{"fail": lvl, "cont": ["?"]}]
+
+        def seq(self, prefix, start, ctx):
+            mine = self.threads.get(prefix, [])
+            if start >= len(mine):
+                return []
+            v = mine[start]
+            st = self.state(v)
+            ty = st.get("Type")
+            nxt = mine[start + 1] if start + 1 < len(mine) else None
+            mine_next = nxt is not None and nxt.cause is not None and nxt.cause[1] == v.mid
+
+            def goes_on(item):
+                """the visit is over without an error"""
+                if nxt is not None:
+                    return [item] + self.seq(prefix, start + 1, ctx)
+                if st.get("End") or ty == "Succeed":
+                    return [item]
+                return [item] + self.static_seq(st.get("Next"), v.branch, ctx)    # the reference run never got that far
+            if self.execution in failed_by.get(v.mid, ()) and ty not in ("Parallel", "Map"):
+                # its own handler ended the execution FAILED (whatever the definition says its Retry / Catch would do)
+                item = ({"T": v.rc} if v.rc else "T") if ty == "Task" and v.mid in reqd else ("W" if ty in ("Task", "Wait") else "S")
+                return [item, {"fail": None, "cont": []}]
             if ty == "Task":
-                if not str(st.get("Resource", "")).startswith("arn:aws:rpcmessage:local::function:"):
-                    raise Unsupported("a Task that is not a function call")
-                if mid not in reqd:
-                    # (its Parameters could not be evaluated, ...: the visit fails in the handler, as a Fail state does)
-                    raise Unsupported("a Task visit that ended without a request")
-                if mid in errs and last and prefix:
-                    # an error at the end of a branch: it fails the fan-out; supported when that fails the execution
-                    if not failed or any(len(v[3]) < len(prefix) and v[0] > i for v in visits):
-                        raise Unsupported("a failing branch whose fan-out is retried / caught / not the end")
-                    items.append("X")
+                res = str(st.get("Resource", ""))
+                if res.startswith(SYNC_CHILD):
+                    kids = [x for x in visits if x.cause == ("tm", v.mid) and x.execution != self.execution and x.name in ("", None)]
+                    if not kids:
+                        return [{"child": ["?"], "rc": v.rc}] + ([] if st.get("End") else self.static_seq(st.get("Next"), v.branch, ctx))
+                    kid = kids[0]
+                    km = machines.get(kid.machine)
+                    if km is None:
+                        raise Unsupported("the machine of a child execution is not known")
+                    kb = Build(kid.execution, km)
+                    item = {"child": kb.seq((), 0, []), "rc": v.rc}
+                    error = "States.TaskFailed" if ended.get(kid.execution) == "FAILED" else None
+                elif is_function_call(st):
+                    item = {"T": v.rc} if v.rc else "T"
+                    if v.mid not in reqd:
+                        # dropped before its deferred handler ran (its fan-out had failed): what it would have led to is not known
+                        # (what it would have been answered is in the plans)
+                        return self.static_seq(v.name or self.machine.get("StartAt"), v.branch, ctx, v.rc)
+                    error = errs.get(v.mid)
                 else:
-                    items.append("T")
-            elif ty == "Wait":
-                items.append("W")
-            elif ty in ("Parallel", "Map"):
-                k = seen_fan.get(name, 0)
-                seen_fan[name] = k + 1
-                ids = []
-                for v in visits:
-                    if len(v[3]) == len(prefix) + 1 and v[3][:-1] == prefix and v[4][-1].get("Parent") == name and v[3][-1][0] not in ids:
-                        ids.append(v[3][-1][0])
-                if k >= len(ids):
-                    width = 0
-                    if ty == "Parallel" or not last:
-                        raise Unsupported("a fan-out that launched nothing")
-                    branches = []
-                else:
-                    jid = ids[k]
-                    idxs = sorted({v[3][-1][1] for v in visits if len(v[3]) == len(prefix) + 1 and v[3][:-1] == prefix and v[3][-1][0] == jid})
-                    lens = [v[4][-1].get("Length") for v in visits if len(v[3]) == len(prefix) + 1 and v[3][-1][0] == jid]
-                    width = lens[0] if lens and isinstance(lens[0], int) else len(idxs)
-                    if idxs != list(range(width)):
-                        raise Unsupported("a fan-out not all of whose branches were launched")
-                    branches = [build(prefix + ((jid, ix),)) for ix in range(width)]
+                    raise Unsupported("a Task that is neither a function call nor a synchronous child execution")
+                if error is None:
+                    return goes_on(item)
+                if handles(st, error, v.rc):
+                    # its own Retry / Catch: the visit that follows
+                    return [item] + (self.seq(prefix, start + 1, ctx) if mine_next else ["?"])
+                return [item] + self.fail_item(v, error, ctx)
+            if ty == "Wait":
+                return goes_on("W")
+            if ty == "Fail":
+                return ["S"] + self.fail_item(v, st.get("Error", "Unspecified"), ctx)
+            if ty in ("Pass", "Choice", "Succeed"):
+                return goes_on("S")
+            if ty in ("Parallel", "Map"):
+                kids = [x for x in visits if x.cause == ("tm", v.mid) and x.execution == self.execution and not x.reenter
+                        and len(x.stack) == len(prefix) + 1 and x.stack[:-1] == prefix]
                 mc = st.get("MaxConcurrency", 0) if ty == "Map" else 0
-                items.append({"par": branches, "mc": mc if isinstance(mc, int) and mc > 0 else 0})
-            elif ty == "Fail" and prefix:
-                # it fails its fan-out from the event's own handler, next to branches that are still running:
-                # a visit the skeletons do not have
-                raise Unsupported("a Fail state inside a branch")
-            elif ty in ("Pass", "Choice", "Succeed", "Fail"):
-                items.append("S")
-            else:
-                raise Unsupported("state type %r" % ty)
-        return items
-    sk = build(())
-    if json.dumps(sk).count('"X"') > 1:
-        raise Unsupported("several failing branches: which one ends the execution depends on what a crash delays")
-    return sk
+                mc = mc if isinstance(mc, int) and not isinstance(mc, bool) and mc > 0 else 0
+                if not kids:
+                    if self.execution in failed_by.get(v.mid, ()):
+                        return [{"par": [], "mc": 0}, {"fail": None, "cont": []}]      # it failed before launching anything
+                    if ty == "Map" and (mine_next or st.get("End")):
+                        return goes_on({"par": [], "mc": 0})                              # no items
+                    return ["?"]                                                             # dropped before it launched
+                jid = kids[0].stack[-1][0]
+                lens = [x.branch[-1].get("Length") for x in kids]
+                width = lens[0] if lens and isinstance(lens[0], int) else len({x.stack[-1][1] for x in kids})
+                following = self.seq(prefix, start + 1, ctx) if nxt is not None else None
+                inner = [(following, nxt.cause[1] if nxt is not None and nxt.cause is not None else None)] + ctx
+                branches = []
+                before = set(self.taken)
+                for ix in range(width):
+                    th = prefix + ((jid, ix),)
+                    if th in self.threads:
+                        branches.append(self.seq(th, 0, inner))
+                    else:
+                        # an iteration of a later batch that was never launched: what the iterator's definition says
+                        it = st.get("Iterator") or st.get("ItemProcessor") or {}
+                        fr = [dict(f) for f in kids[0].branch[:-1]] + [dict(kids[0].branch[-1], Index=ix)]
+                        branches.append(self.static_seq(it.get("StartAt"), fr, inner) if ty == "Map" else ["?"])
+                handled_here = nxt is not None and nxt.cause is not None and nxt.cause[1] in (self.taken - before)
+                item = {"par": branches, "mc": mc}
+                if handled_here or nxt is None:
+                    # the join of this attempt did not complete in the reference run: what follows it is what the definition says
+                    return [item] + ([] if st.get("End") else self.static_seq(st.get("Next"), v.branch, ctx))
+                return [item] + following
+            raise Unsupported("state type %r" % ty)
+
+    first = visits[0]
+    m = machines.get(first.machine)
+    if m is None:
+        raise Unsupported("the machine of the execution is not known")
+    return Build(first.execution, m).seq((), 0, [])
 
 
 def model_skeleton(m):
@@ -206,23 +428,36 @@ def model_skeleton(m):
     return sk
 
 
-def entered_counts(history):
-    import collections
-    c = collections.Counter()
-    for h in history or []:
-        if str(h.get("type", "")).endswith("StateEntered"):
-            c[(h.get("stateEnteredEventDetails") or {}).get("name")] += 1
-    return c
-
-
-def path_diverged(skel, ref_history, history):
-    """The skeleton is the path of the crash-free run.  When that run was ended by a failing branch, a crash that keeps
-    that branch from failing lets its siblings go on along paths the crash-free run never took (their own retries,
-    failures, catches): states are entered more often than in the crash-free run.  Such a run is outside the skeleton."""
-    if '"X"' not in json.dumps(skel):
-        return False
-    ref, got = entered_counts(ref_history), entered_counts(history)
-    return any(got[k] > ref.get(k, 0) for k in got)
+def legacy_view(skel, depth=0):
+    """the skeleton in the vocabulary of `model_skeleton` (Task visits without their RetryCount, a Task that fails its
+    fan-out and with it the execution as "X"), or None where that vocabulary has no word for it (child executions, failures
+    that a fan-out state handles, paths not taken)"""
+    out = []
+    for n, t in enumerate(skel):
+        last = n == len(skel) - 1
+        if t in ("S", "W"):
+            out.append(t)
+        elif t == "T" or (isinstance(t, dict) and "T" in t):
+            out.append("T")
+        elif isinstance(t, dict) and "par" in t:
+            brs = [legacy_view(b, depth + 1) for b in t["par"]]
+            if any(b is None for b in brs):
+                return None
+            out.append({"par": brs, "mc": t.get("mc", 0)})
+            if '"X"' in json.dumps(brs):
+                # (the execution fails there in the crash-free run: what follows in `skel` is the static continuation, for
+                # the runs in which a crash keeps the failure from arriving; the reference semantics stops at the failure)
+                break
+        elif isinstance(t, dict) and "fail" in t:
+            if t["fail"] is not None or not last or not out:
+                return None
+            if depth and out[-1] == "T":
+                out[-1] = "X"
+            elif depth:
+                return None
+        else:
+            return None
+    return out
 
 
 class Labeller(object):
@@ -232,6 +467,9 @@ class Labeller(object):
         self.s = s
         self.sched = []
         self.unknown = []
+        self.steps = []        # (kind, message / correlation id, first frame, end frame) of every handler invocation
+        self.acked = set()     # message ids of the events acknowledged so far
+        self.ended = {}        # execution -> number of schedule entries when its (first) terminal notification had been published
 
     def _timer_label(self, seq):
         t = [x for x in self.s.wheel.live() if x.seq == seq]
@@ -264,8 +502,17 @@ class Labeller(object):
         inst = s.instances[0]
         was_alive = inst.alive
         ident = inst.conn.ident if (inst.alive and inst.conn is not None) else None
+        acked_before = set(self.acked) if label is not None and label[0] == "tm" else None
         s.do(step)
         new = s.broker.log[n0:]
+        for fr in new:
+            if fr["op"] == "ack" and str(fr.get("queue", "")).startswith(EVQ) and fr.get("message_id"):
+                self.acked.add(fr["message_id"])
+        if acked_before is not None and label[1] in acked_before and was_alive and s.instances[0].alive \
+                and not any(fr["op"] in ("publish", "ack") and fr.get("conn") == ident for fr in new):
+            # the deferred handler of an event that has been acknowledged meanwhile (its fan-out failed: the events held for
+            # it were let go): it finds that out and does nothing — not an operation of the model
+            return
         if step[0] == "deliver" and step[2] != "worker":
             d = [fr for fr in new if fr["op"] == "deliver" and fr.get("conn") == step[2]]
             if d:
@@ -273,7 +520,7 @@ class Labeller(object):
                 if q.startswith(EVQ):
                     label = ("ev", d[0].get("message_id"))
                 elif q.startswith(RPQ):
-                    label = ("rp", d[0].get("correlation_id"))
+                    label = ("rp", base_id(d[0].get("correlation_id")))
                 else:
                     label = ("?", q)
         elif step[0] == "crash":
@@ -292,15 +539,38 @@ class Labeller(object):
                     cut += 1
         if label[0] == "?":
             self.unknown.append(label[1])
+        self.steps.append((label[0], label[1], n0, len(s.broker.log)))
         self.sched.append((label[0], label[1], cut))
+        for fr in new:
+            if fr["op"] == "publish" and fr.get("exchange") == "asl_workflow_engine":
+                d = (body_of(fr) or {}).get("detail") or {}
+                if d.get("status") not in (None, "RUNNING"):
+                    self.ended.setdefault(d.get("executionArn"), len(self.sched))
 
-    def schedule(self):
-        """the schedule in the model's terms (events by publication ordinal); None if something has no counterpart"""
-        if self.unknown:
+    def schedule(self, execution=None):
+        """the schedule in the model's terms (events by publication ordinal); None if something has no counterpart.  The run
+        is given up to the handler that ended `execution` (after a failure the order in which late replies and back-off
+        timers come decides how it ends; what the engine does with the leftovers of an execution that has ended, across
+        further crashes, is not C04's subject), the whole run if it did not end; from there the model runs by itself.  It
+        also ends where, after the last crash, a timer runs that the model does not have (the retention of an orphaned
+        reply running out …)."""
+        sched = self.sched
+        if execution is not None and execution in self.ended:
+            sched = sched[:self.ended[execution]]
+        last = -1
+        for i, op in enumerate(sched):
+            if op[0] == "crash" or op[2] is not None:
+                last = i
+        for i, op in enumerate(sched):
+            if op[0] == "?" and i > last:
+                sched = sched[:i]
+                break
+        if any(op[0] == "?" for op in sched):
+            self.why = sorted({str(op[1]) for op in sched if op[0] == "?"})
             return None
         om = ordinals(self.s.broker.log)
         out = []
-        for kind, ident, cut in self.sched:
+        for kind, ident, cut in sched:
             if kind == "crash":
                 out.append(["crash"])
             elif kind == "tick":
@@ -321,37 +591,68 @@ def upto_last_crash(sched):
     return sched[:last + 1]
 
 
-def line(switches, skel, sched):
-    return "crash\trun\t%s\t%s\t%s" % (",".join(switches), pj(skel), pj(sched))
+def line(switches, skel, sched, lenient=False):
+    """`lenient`: operations of the schedule that are not enabled are left out (the question "what does the protocol with
+    these switches do under this schedule" for switches other than the engine's, whose handler invocations differ)"""
+    return "crash\t%s\t%s\t%s\t%s" % ("runl" if lenient else "run", ",".join(switches), pj(skel), pj(sched))
 
 
 def engine_observation(s, ea, fv, terms, reqs, detail):
-    """what the engine's run looks like in the model's terms"""
+    """what the engine's run looks like in the model's terms.  A pending request is named by the ordinal of the Task event
+    that registered it (a synchronous child's request is keyed by the child's execution ARN: the engine's cancellers say which
+    event that was); one that cannot be traced to an event stays as it is, which no answer of the model matches."""
     om = ordinals(s.broker.log)
-    o = lambda xs: sorted(om[x] for x in xs if x in om)
-    return {"terminal": fv.get("status") in ("SUCCEEDED", "FAILED"),
+    inst = s.instances[0]
+    owner = {}
+    if inst.alive and inst.engine is not None:
+        for event_id, can in inst.engine.task_dispatcher.cancellers.items():
+            owner[can.get("TaskID")] = event_id
+
+    def name(x):
+        if x in om:
+            return om[x]
+        if base_id(x) in om:
+            return om[base_id(x)]
+        if owner.get(x) in om:
+            return om[owner[x]]
+        return x
+    o = lambda xs: sorted((name(x) for x in xs), key=lambda y: (isinstance(y, str), y))
+    started = set()
+    for n in s.notifications:
+        d = (n["body"] or {}).get("detail", {}) if n["body"] else {}
+        if d.get("executionArn") and d["executionArn"] != ea and d.get("status") == "RUNNING":
+            started.add(d["executionArn"])
+    # (how the execution ended is its first terminal notification: the model is asked up to the handler that published it)
+    return {"terminal": bool(terms) or fv.get("status") in ("SUCCEEDED", "FAILED"),
+            "failed": (terms[0] if terms else fv.get("status")) == "FAILED",
             "notes": len(terms),
             "resent": o([c for c, n in reqs.items() if n > 1]),
+            "requests": sum(reqs.values()) + len(started),
             "pendingUnsent": o(detail.get("pending_unsent", [])) if detail else [],
             "pendingLost": o(detail.get("pending_reply_consumed", [])) if detail else []}
 
 
 def view(m, between):
-    """the part of the model's observation that is compared: always whether the execution ended and, when it did not, what
-    it waits for; for a crash between two handlers also that nothing was requested twice and one terminal notification"""
-    v = {"terminal": m["terminal"], "pendingUnsent": sorted(m["pendingUnsent"]) if not m["terminal"] else [],
+    """the part of the model's observation that is compared: always whether the execution ended, how (failed or not) and, when
+    it did not, what it waits for; for a crash between two handlers also that nothing was requested twice, how many requests
+    the workers got in all and one terminal notification"""
+    v = {"terminal": m["terminal"], "failed": bool(m.get("failed")) if m["terminal"] else False,
+         "pendingUnsent": sorted(m["pendingUnsent"]) if not m["terminal"] else [],
          "pendingLost": sorted(m["pendingLost"]) if not m["terminal"] else []}
     if between:
         v["resent"] = sorted(m["resent"])
+        v["requests"] = m["requests"]
         v["notes"] = m["notes"] if m["terminal"] else 0
     return v
 
 
 def engine_view(eo, between):
     """the engine's observation in the form of `view`"""
-    v = {"terminal": eo["terminal"], "pendingUnsent": eo["pendingUnsent"] if not eo["terminal"] else [],
+    v = {"terminal": eo["terminal"], "failed": eo["failed"] if eo["terminal"] else False,
+         "pendingUnsent": eo["pendingUnsent"] if not eo["terminal"] else [],
          "pendingLost": eo["pendingLost"] if not eo["terminal"] else []}
     if between:
         v["resent"] = eo["resent"]
+        v["requests"] = eo["requests"]
         v["notes"] = eo["notes"] if eo["terminal"] else 0
     return v
